@@ -17,13 +17,39 @@ KIND_OF_CLASS = {
 }
 
 
+_POINT2 = None
+
+
+def point2_classes():
+    """The tuple of box types of point 2 of draw_stacking_context, read from the current source (AST): the first
+    `isinstance(box, (...))` test of the function that names BlockBox."""
+    global _POINT2
+    if _POINT2 is None:
+        import ast, inspect
+        from weasyprint import draw
+        from weasyprint.formatting_structure import boxes as B
+        tree = ast.parse(inspect.getsource(draw.draw_stacking_context))
+        found = None
+        for node in ast.walk(tree):
+            if (isinstance(node, ast.Call) and getattr(node.func, 'id', None) == 'isinstance' and len(node.args) == 2
+                    and isinstance(node.args[1], ast.Tuple)):
+                names = [e.attr for e in node.args[1].elts if isinstance(e, ast.Attribute)]
+                if 'BlockBox' in names and 'TableCellBox' in names:
+                    found = names
+                    break
+        if found is None:
+            raise RuntimeError('point 2 isinstance tuple of draw_stacking_context not found')
+        _POINT2 = tuple(getattr(B, n) for n in found)
+    return _POINT2
+
+
 def class_bits(box):
     """isinstance facts that stacking.py / draw_stacking_context read, as a bit mask (checked against the
-    model's tables inside Coq)."""
+    model's tables inside Coq); the point 2 tuple is taken from the source of draw_stacking_context."""
     from weasyprint.formatting_structure import boxes as B
     tests = [
         B.ParentBox, B.BlockLevelBox, B.TableCellBox, (B.InlineBlockBox, B.InlineFlexBox, B.InlineGridBox),
-        (B.BlockBox, B.MarginBox, B.InlineBlockBox, B.TableCellBox, B.FlexContainerBox, B.ReplacedBox),
+        point2_classes(),
         B.TableBox, B.InlineBox, B.LineBox, B.TextBox, B.ReplacedBox, B.InlineReplacedBox, B.PageBox]
     return sum(1 << n for n, t in enumerate(tests) if isinstance(box, t))
 
